@@ -366,6 +366,9 @@ class Parser:
         # Convert to float first to handle scientific notation.
         try:
             return IntegerLiteral(stream.current, value=int(float(value)))
+        except OverflowError:
+            # Too big for a float, like 1e400.
+            return FloatLiteral(stream.current, value=float(value))
         except ValueError as err:
             raise JSONPathSyntaxError(
                 "invalid integer literal", token=stream.current
